@@ -456,6 +456,11 @@ def check_C06(ctx, deep=False):
     # `is_check` on GENERATED successors (boards that carry a move descriptor) after special moves
     # that give check: castling whose rook checks, en passant uncovering a line (exhaustive lattices)
     ops += C.genops("chkmoves", ctx.seed + 2, 1, "chk")
+    # ... and on boards built by the TEXT applier (`position ... moves`: `make_move` keeps the king
+    # squares `is_check` starts from): the same special moves and playouts, each move applied by its text
+    for o in C.genops("chkmoves", ctx.seed + 2, 1, "chk") + \
+            [o for o in C.genops("walk", ctx.seed + 3, 40 if q else 600, 60, 0) if o.split(" ")[0] in ("fen", "pick", "chk")]:
+        ops.append("mk " + o[5:] if o.startswith("pick ") else o)
     run_and_compare(ctx, ops, [oracle_chk])
     ctx.exhaustive = (stride == 1)
 
